@@ -1097,7 +1097,7 @@ def remainderSexp (items : List Sexp) (tail : Option Sexp) : Sexp :=
   | items, some t => .list (items ++ [t]) true
 
 def combineRounds (vars : List Name) (rs : List SBind) : SBind :=
-  vars.eraseDups.map (fun v => (v, BTree.node (rs.filterMap (fun r => r.get v))))
+  (vars.eraseDups.filter (fun v => v != wildcard)).map (fun v => (v, BTree.node (rs.filterMap (fun r => r.get v))))
 
 mutual
 /-- R7RS 4.3.2: does form `f` match pattern `p`, and with which bindings.  `litEq n s`: the identifier `n`
